@@ -2,7 +2,8 @@
    Only statements: every proof is [exact <lemma>], followed by Print Assumptions. *)
 From Coq Require Import ZArith QArith Qminmax List Bool.
 From SB3V Require Import Model.Script Gen.Frag_offpolicy Model.OnPolicyCollect Proofs.OnPolicyCollectProofs
-  Model.OffPolicyCollect Proofs.OffPolicyCollectProofs.
+  Model.OffPolicyCollect Proofs.OffPolicyCollectProofs Model.Pipeline Proofs.PipelineProofs.
+From SB3V Require Model.Replay Proofs.ReplayProofs.
 From SB3V Require Refuted.C04_vecnorm.   (* the VecNormalize terminal-observation witness is rebuilt with every check *)
 Import ListNotations.
 Local Open Scope Z_scope.
@@ -130,6 +131,29 @@ Theorem C04_fragment_sde_noise : forall u f j hn,
 Proof. exact frag_off_sde. Qed.
 Print Assumptions C04_fragment_sde_noise.
 
+(* ---- composition with C03: collect_rollouts followed by ReplayBuffer.add / sample ---- *)
+
+(* after G vector steps of collection into a buffer of any capacity: whatever (draw, env) the sampler may pick, the sample is
+   transition number k of that env's scripted run, k among the last `capacity` steps: the observation acted on, the stored
+   (encoded) action, as next observation the k-th step's own observation (true successor), done = terminated-or-truncated
+   masked by the time-limit flag when handle_timeout_termination, and the raw reward *)
+Theorem C04_pipeline_sample_is_real_transition : forall aenc ak (envs : list envcol) (G : nat) dict bs ht b0 d e ec,
+  Replay.create dict bs (Z.of_nat (length envs)) false ht = Some b0 ->
+  Forall (fun ec => length (ec_orcs ec) = G) envs ->
+  nth_error envs e = Some ec ->
+  let b := pipeline_buffer aenc ak envs G b0 in
+  fst (Replay.sample_bounds b) <= d < snd (Replay.sample_bounds b) ->
+  exists k : nat,
+    Z.of_nat G - Replay.capacity bs (Z.of_nat (length envs)) <= Z.of_nat k < Z.of_nat G /\
+    let t := true_trans ak ec k in
+    let s := snd (env_step (ec_sc ec) (env_after (ec_sc ec) (os_cur (ec_st ec)) k)) in
+    Replay.get b (Replay.idx_of_draw b d) e =
+      (OffPolicyCollect.t_obs t, aenc (OffPolicyCollect.t_act t), st_tag s,
+       Z.b2z ((st_term s || st_trunc s) && negb (ht && (st_trunc s && negb (st_term s)))), st_r4 s) /\
+    OffPolicyCollect.t_obs t = obs_at (ec_sc ec) (to_c (ec_st ec)) k.
+Proof. exact offpolicy_pipeline. Qed.
+Print Assumptions C04_pipeline_sample_is_real_transition.
+
 (* ---- non-vacuity ---- *)
 Definition ex4_sc : script :=
   [mk_episode 10 0 [mk_sstep 11 4 false false 0; mk_sstep 12 (-8) false true 0];
@@ -144,3 +168,14 @@ Example C04_ex :
   [(10, 11, 4, false, false, [0%Q], [2%Q]); (11, 12, -8, true, true, [1%Q], [6%Q]); (20, 21, 8, true, false, [(-1 # 2)%Q], [0%Q])] /\
   length (l_orcs (fst r)) = 2%nat /\ l_nt (fst r) = 3 /\ l_exh (fst r) = false.
 Proof. vm_compute. repeat split; reflexivity. Qed.
+
+(* capacity 2, three collected steps: the two drawable slots hold transitions 2 and 1 of the scripted run - successor = the step's own
+   observation (21, 12: terminal observations, not the reset observations 30 / 20), done masked for the purely truncated one *)
+Example C04_ex_pipeline :
+  let envs := [mkEC ex4_sc (os_reset ex4_sc ostate0) [mkO [2%Q] None; mkO [6%Q] None; mkO [0%Q] None]] in
+  match Replay.create false 2 1 false true with
+  | Some b0 => let b := pipeline_buffer (fun _ => 7) ADisc envs 3 b0 in
+               (Replay.sample_bounds b, map (fun d => Replay.get b (Replay.idx_of_draw b d) 0) [0; 1])
+  | None => ((0, 0), [])
+  end = ((0, 2), [(20, 7, 21, 1, 8); (11, 7, 12, 0, -8)]).
+Proof. vm_compute. reflexivity. Qed.
